@@ -472,7 +472,10 @@ def main(argv):
         for path in ("DN", "SR", "FR", "ER", "JR"):
             if f[path] != xb:
                 lossy_pred = m["JL"] if m else None
-                if path == "JR" and not exact_core and F17 in known and lossy_pred == f[path]:
+                # F17 class: the output text denotes x exactly (the exact parser reads x), only the shipped
+                # lossy input parser is off, and it is off by exactly what its transcription predicts
+                if (path == "JR" and not exact_core and F17 in known and lossy_pred == f[path]
+                        and m["JE"] == xb and m["JO"] == "T"):
                     f17_hits += 1
                 else:
                     fails.append((xb, path, f[path], f))
@@ -589,7 +592,7 @@ def main(argv):
             cli_checked += 1
             if ob != b:
                 m = parse_fields(model[idx_of[b]]) if model[idx_of[b]] else None
-                if (not exact_cli) and F17 in known and m and m["JL"] == hx16(ob):
+                if (not exact_cli) and F17 in known and m and m["JL"] == hx16(ob) and m["JE"] == hx16(b):
                     cli_f17 += 1
                 else:
                     res.violation("a finite number does not survive JSON output -> JSON input in the real CLI",
